@@ -99,7 +99,8 @@ def make_settings(url, root, proxy=None, ua="verif/1", verify=True, cert=None, k
 # A. classification
 
 DATE = 1_000_000_000
-STATUSES = [200, 200, 200, 204, 403, 404, 429, 500, 503]
+# registered and unregistered codes of each class (a class is decided by the first digit, whatever the code's name is)
+STATUSES = [200, 200, 200, 204, 403, 404, 429, 500, 503, 410, 419, 430, 451, 499, 502, 520, 599]
 
 
 def gen_behaviour(rng, tagc):
@@ -116,7 +117,7 @@ def gen_behaviour(rng, tagc):
         if b["status"] == 204:
             b["body_len"] = 0
     elif shape in ("redirect", "redirect-abs"):
-        b["status"] = rng.choice([301, 302])
+        b["status"] = rng.choice([301, 302, 307, 308])
         b["then"] = gen_terminal(rng, tagc)
     elif shape == "redirect-loop":
         b["status"] = 302
